@@ -84,6 +84,10 @@ func genC09(t *rapid.T) c09Case {
 	if rapid.IntRange(0, 3).Draw(t, "defaultTimeout") == 0 {
 		c.TimeoutMs = 5000
 	}
+	if c.Mode == "rpc" && (c.Transport == "loop" || c.Transport == "tcp") && rapid.IntRange(0, 5).Draw(t, "nodeadline") == 0 {
+		// zero / negative = no deadline; transports that do not need a deadline carry the call
+		c.TimeoutMs = rapid.SampledFrom([]int{0, -1, -2000}).Draw(t, "nodeadline.ms")
+	}
 	if rapid.IntRange(0, 5).Draw(t, "big?") == 0 {
 		sizes := []int{60000, 65500, 65536, 65537, 70000, 140000, 300000}
 		c.BigUser = rapid.SampledFrom(sizes).Draw(t, "biguser")
@@ -106,6 +110,9 @@ func classifyC09(c c09Case) ev.Class {
 	}
 	if c.TimeoutMs != 5000 {
 		labels = append(labels, "non-default-timeout")
+	}
+	if c.TimeoutMs <= 0 {
+		labels = append(labels, "zero-or-negative-timeout")
 	}
 	if len(c.User) > 0 {
 		labels = append(labels, "user-headers")
